@@ -546,6 +546,9 @@ func (e *specEnv) call(x *SExpr) SVal {
 		c, a, b := arg(0), arg(1), arg(2)
 		a, b = e.coerceNil(a, b)
 		return SVal{Term: fmt.Sprintf("(ite %s %s %s)", c.Term, a.Term, b.Term), Sort: a.Sort, Type: a.Type}
+	case "isProtoMsg":
+		a := arg(0)
+		return SVal{Term: fmt.Sprintf("(isProtoMsg %s)", a.Term), Sort: "Bool"}
 	case "validItem":
 		a := arg(0)
 		return SVal{Term: fmt.Sprintf("(validItem %s)", a.Term), Sort: "Bool"}
